@@ -249,7 +249,8 @@ Grid::rows_are_zero(M& system, dimension_type first,
 #endif
 
 void
-Grid::simplify(Grid_Generator_System& ggs, Dimension_Kinds& dim_kinds) {
+Grid::simplify(Grid_Generator_System& ggs, Dimension_Kinds& dim_kinds,
+               const bool eliminate_lines) {
   PPL_ASSERT(!ggs.has_no_rows());
   // Changes here may also be required in the congruence version below.
 
@@ -376,6 +377,33 @@ Grid::simplify(Grid_Generator_System& ggs, Dimension_Kinds& dim_kinds) {
   // Note: a common factor may show up when factoring out the lines and
   // the representatives chosen by reduce_reduced() do depend on it:
   // hence, the factoring is repeated after each simplification.
+  // A line can be added to any other generator with an arbitrary rational
+  // multiplier: the point and the parameters are only determined up to
+  // the space of the lines.  On request, make zero their coefficients in
+  // the pivot column of each line (scaling them as done by
+  // reduce_parameter_with_line() above), so that equal grids get the same
+  // point and parameters.
+  // Note: this is not done by default, because it changes the
+  // representatives chosen for the point and the parameters.
+  if (eliminate_lines) {
+    for (dimension_type dim = 0, row_index = 0; dim < num_columns; ++dim) {
+      if (dim_kinds[dim] == GEN_VIRTUAL) {
+        continue;
+      }
+      if (dim_kinds[dim] == LINE) {
+        const Grid_Generator& pivot = ggs.sys.rows[row_index];
+        for (dimension_type i = row_index; i-- > 0; ) {
+          Grid_Generator& row = ggs.sys.rows[i];
+          if (row.is_parameter_or_point() && row.expr.get(dim) != 0) {
+            reduce_parameter_with_line(row, pivot, dim, ggs.sys.rows,
+                                       num_columns + 1);
+          }
+        }
+      }
+      ++row_index;
+    }
+  }
+
   PPL_ASSERT(ggs.sys.rows[0].is_point());
   PPL_DIRTY_TEMP_COEFFICIENT(system_divisor);
   PPL_DIRTY_TEMP_COEFFICIENT(common_factor);
